@@ -600,8 +600,15 @@ def oracle_case(case, res):
         yield (clause, "D4" if empty_exact else None, detail, 0)
     if cf:
         if res.get("exact_ok") is not True or res.get("exact_records") != built:
+            xr = res.get("exact_records") or {}
+            missing = {n for n in built if n not in xr}
             if empty_exact:
                 cls = "D4"
+            elif (res.get("exact_ok") is True and missing and all(built.get(n) == v for n, v in xr.items())
+                  and missing <= L.retaken(case, built)):
+                # D72: the only difference is that products which were taken away by an unsetup line and set up again later are
+                # not pinned (the static dependency listing removes them by name and does not list them again)
+                cls = "D72"
             elif d19_class(case, built):
                 cls = "D19"
             else:
